@@ -411,14 +411,16 @@ def doStepSpec (hdr vals : List Nat) : String :=
     let const := ratB (sc.getD 2 0)
     let s := st.map ratB
     let tolq := ratB (tq.getD 0 0)
-    if !inBox xl xu s then "fail bounds"
-    else if !inBall s delta rtol then "fail radius"
-    else if kind = 1 && !ineqKept aub bub (tu.map ratB) s then "fail inequality"
-    else if kind = 1 && !eqKept aeq (te.map ratB) s then "fail null-space"
-    else if (kind = 0 || kind = 1) && !(decide (qmodel g H s ≤ tolq)) then "fail model-increased"
-    else if kind = 2 && !(decide (violSq aub bub aeq beq s ≤ violSq aub bub aeq beq (s.map fun _ => 0) + tolq)) then "fail violation-increased"
-    else if kind = 3 && !(decide (absR const - tolq ≤ absR (const + qmodel g H s))) then "fail magnitude-decreased"
-    else "ok"
+    -- every clause that fails is reported (C15 owns the first four, C16 the last three)
+    let fails : List String :=
+      (if !inBox xl xu s then ["bounds"] else []) ++
+      (if !inBall s delta rtol then ["radius"] else []) ++
+      (if kind = 1 && !ineqKept aub bub (tu.map ratB) s then ["inequality"] else []) ++
+      (if kind = 1 && !eqKept aeq (te.map ratB) s then ["null-space"] else []) ++
+      (if (kind = 0 || kind = 1) && !(decide (qmodel g H s ≤ tolq)) then ["model-increased"] else []) ++
+      (if kind = 2 && !(decide (violSq aub bub aeq beq s ≤ violSq aub bub aeq beq (s.map fun _ => 0) + tolq)) then ["violation-increased"] else []) ++
+      (if kind = 3 && !(decide (absR const - tolq ≤ absR (const + qmodel g H s))) then ["magnitude-decreased"] else [])
+    if fails.isEmpty then "ok" else "fail " ++ ",".intercalate fails
   | _ => "bad-op"
 end stepspec
 
